@@ -14,7 +14,7 @@ import (
 )
 
 var c03Forced = []string{"group.1col", "group.2col", "group.3col", "group.nullkey", "group.mixedkey", "having", "having.key", "where", "star", "agg.COUNT*", "agg.COUNT", "agg.SUM", "agg.MIN", "agg.MAX", "agg.AVG",
-	"agg.samefn-diffcol", "agg.samefn-samecol", "agg.nullable", "whole.where", "whole.nowhere", "whole.empty", "whole.union", "whole.limit", "table.empty", "from.alias", "reexec.vars", "agg.groupcol", "naming.alias-unqualified", "naming.table-qualified", "agg.like-named", "star.only", "naming.mixed-spelling", "column.nonword", "column.table-prefixed", "agg.huge", "having.alias", "agg.COUNT1"}
+	"agg.samefn-diffcol", "agg.samefn-samecol", "agg.nullable", "whole.where", "whole.nowhere", "whole.empty", "whole.union", "whole.limit", "table.empty", "from.alias", "reexec.vars", "agg.groupcol", "naming.alias-unqualified", "naming.table-qualified", "agg.like-named", "star.only", "naming.mixed-spelling", "column.nonword", "column.table-prefixed", "agg.huge", "having.alias", "agg.COUNT1", "groups.many", "having.alias-case-twin"}
 
 func init() {
 	fw.Register(&fw.Prop{
@@ -61,6 +61,18 @@ func c03Table(c *fw.Case, forceEmpty bool) *gen.Table {
 	gs = gs[:2+c.Intn(len(gs)-1)]
 	gn := []any{1.0, 2.0, 1.5, -1.0}
 	gn = gn[:1+c.Intn(len(gn))]
+	if !forceEmpty && (c.Idx%50 == 7 || c.Chance(0.04)) {
+		// many groups: more distinct keys than any small table has (whatever
+		// the grouping does differently from some size on, a key has one group)
+		n = 50 + c.Intn(110)
+		k := 33 + c.Intn(40)
+		gs, gn = make([]any, k), make([]any, k)
+		for i := range gs {
+			gs[i] = fmt.Sprintf("k%d", i)
+			gn[i] = float64(i) / 2
+		}
+		c.Feature("groups.many")
+	}
 	vpool := make([]float64, 2+c.Intn(5))
 	for i := range vpool {
 		vpool[i] = dyadic(c)
@@ -279,6 +291,33 @@ func c03Group(c *fw.Case) {
 		seenFn[a.Fn] = a.Col
 		seenCall[a.SQL()] = true
 	}
+	// an aggregate's alias that differs from a grouping column by letter case
+	// only: HAVING over the grouping column still reads the grouping column
+	caseTwin := ""
+	if !whole && !aliasMode && force == "" && (c.Idx%50 == 9 || c.Chance(0.05)) {
+		for _, g := range gcols {
+			if g != "g4" && g != "g5" {
+				caseTwin = g
+				break
+			}
+		}
+		if caseTwin != "" {
+			caseTwin = ""
+			for i := range items {
+				if items[i].agg != nil {
+					for _, g := range gcols {
+						if g != "g4" && g != "g5" {
+							caseTwin = g
+							break
+						}
+					}
+					items[i].key = strings.ToUpper(caseTwin)
+					feats = append(feats, "having.alias-case-twin")
+					break
+				}
+			}
+		}
+	}
 	c.R.Shuffle(len(items), func(i, j int) { items[i], items[j] = items[j], items[i] })
 	// HAVING
 	var having gen.Pred
@@ -287,10 +326,10 @@ func c03Group(c *fw.Case) {
 	if containsStr(gcols, "g2") {
 		havingAggs = append(havingAggs, ref.Agg{Fn: "SUM", Col: "g2"}, ref.Agg{Fn: "COUNT", Col: "g2"})
 	}
-	if !whole && (force == "having" || force == "having.key" || force == "having.alias" || c.Chance(0.35)) {
+	if !whole && (force == "having" || force == "having.key" || force == "having.alias" || caseTwin != "" || c.Chance(0.35)) {
 		atom := func() gen.Pred {
 			ops := []string{"=", "!=", "<", "<=", ">", ">="}
-			useKey := !aliasMode && (force == "having.key" || c.Chance(0.25))
+			useKey := !aliasMode && (force == "having.key" || c.Chance(0.25) || (caseTwin != "" && c.Chance(0.7)))
 			if useKey {
 				for _, g := range gcols {
 					if g == "g4" || g == "g5" {
